@@ -105,7 +105,7 @@ mod tests {
     use crate::wirekit::wire::*;
 
     fn side(total: u32, read: u32, close: Close) -> Side {
-        Side { writes: vec![total], try_write: false, reads: vec![read], peek: 0, close, wait_first: false }
+        Side { writes: vec![total], try_write: false, reads: vec![read], peek: 0, close, wait_first: false, read_delay: 0, read_after_write: false }
     }
     fn sc(plan: Plan) -> Scenario {
         Scenario {
